@@ -1174,11 +1174,13 @@ func runCase(c *vh.Ctx, ops []op, cfg runCfg) {
 			if dumpState(twin.VerifState()) != dumpState(st) {
 				c.Fail("batch:not-sequential", "state after batches differs from applying their ops one by one", replay.String())
 			}
-			failAll(c, indexFindings(st), replay.String())
 		}
+		// all ten secondary indexes recomputed from the primary records, and RBAC parent existence,
+		// after every command (both properties rely on them)
+		failAll(c, indexFindings(st), replay.String())
+		failAll(c, rbacOrphans(st), replay.String())
 		if cfg.c23 {
 			failAll(c, roleFindings(before, st, o, res), replay.String())
-			failAll(c, rbacOrphans(st), replay.String())
 		}
 		if cfg.snapEvery || i == len(ops)-1 {
 			g, e := snapRestore(main)
@@ -1197,8 +1199,9 @@ func runCase(c *vh.Ctx, ops []op, cfg runCfg) {
 				if dumpSections(rs)[0] != dumpSections(st)[0] || rs.PW != st.PW {
 					c.Fail("restore:nodes-differ", "nodes/primaryWriterID changed across snapshot+restore", replay.String()+"; snap")
 				}
-				failAll(c, rbacOrphans(rs), replay.String()+"; snap")
 			}
+			failAll(c, rbacOrphans(rs), replay.String()+"; snap")
+			failAll(c, indexFindings(rs), replay.String()+"; snap")
 		}
 	}
 	finalDump := dumpState(st)
@@ -1254,4 +1257,88 @@ func runCase(c *vh.Ctx, ops []op, cfg runCfg) {
 		}
 	}
 	c.Case(canon.String(), nontrivial)
+}
+
+// ---------------------------------------------------------------- RBAC membership scenarios (shared)
+func mOrg(n string) op { return opMkOrg(craft.OrganizationEntry{Name: n, CreatedAtUnixNano: 5}) }
+func mTeam(o int64, n string) op {
+	return opMkTeam(craft.TeamEntry{OrganizationID: o, Name: n, CreatedAtUnixNano: 5})
+}
+func mRole(t int64) op {
+	return opMkRole(craft.RoleEntry{TeamID: t, DatabasePattern: "*", Permissions: "read", CreatedAtUnixNano: 5})
+}
+func mTok(n, pfx string) op {
+	return opMkToken(craft.TokenEntry{Name: n, TokenHash: "h", TokenPrefix: pfx, CreatedAtUnixNano: 5})
+}
+func mMem(t, tm int64) op {
+	return opAddMem(craft.TokenMembershipEntry{TokenID: t, TeamID: tm, CreatedAtUnixNano: 5})
+}
+
+// membershipDirected: tokens in several teams, teams with several tokens, partial removals followed by
+// team / organization / token cascades, duplicate adds and removes afterwards.
+// ids = log indexes: orgs 1,2; teams 3 (org1 "core"), 4 (org1 "ops"), 5 (org2 "core"); tokens 6,7,8;
+// memberships 9:(6,3) 10:(6,4) 11:(6,5) 12:(7,3) 13:(8,3) 14:(8,4)
+func membershipDirected() [][]op {
+	base := []op{mOrg("acme"), mOrg("globex"), mTeam(1, "core"), mTeam(1, "ops"), mTeam(2, "core"),
+		mTok("tA", "p1"), mTok("tB", "p1"), mTok("tC", "p2"),
+		mMem(6, 3), mMem(6, 4), mMem(6, 5), mMem(7, 3), mMem(8, 3), mMem(8, 4)}
+	tails := [][]op{
+		// delete ONE of a token's teams, then probe the pair index: duplicate add, remove, re-add
+		{opDelTeam(3), mMem(6, 4), opRmMem(6, 4), mMem(6, 4), opRmMem(6, 5), opDelTeam(4), opDelTeam(5)},
+		{opDelTeam(4), mMem(6, 3), mMem(8, 3), opRmMem(8, 3), opRmMem(8, 3), opDelOrg(1), mMem(6, 5), opDelOrg(2)},
+		// delete ONE of the organizations that own a token's teams
+		{opDelOrg(2), mMem(6, 3), opRmMem(6, 4), opDelOrg(1)},
+		{opDelOrg(1), mMem(6, 5), opRmMem(6, 5), mMem(6, 5), opDelToken(6), opDelOrg(2)},
+		// remove the token whose ONLY membership is the team, then cascade the team / its org
+		{opRmMem(7, 3), opDelTeam(3), opDelTeam(4)},
+		{opRmMem(7, 3), opDelOrg(1), opDelOrg(2)},
+		{opRmMem(8, 4), opRmMem(6, 4), opDelTeam(4), opRmMem(8, 3), opRmMem(7, 3), opDelTeam(3), opDelTeam(5)},
+		// token cascades with the token in several teams, then team cascades over what is left
+		{opDelToken(6), opDelTeam(3), mMem(8, 4), opDelToken(8), opDelTeam(4)},
+		{opDelToken(7), opRmMem(6, 3), opRmMem(8, 3), opDelTeam(3), mTeam(1, "core"), mMem(6, 15), opDelOrg(1)},
+	}
+	var out [][]op
+	for _, t := range tails {
+		out = append(out, append(append([]op(nil), base...), t...))
+	}
+	return out
+}
+
+// membership alphabet over the fixed prefix org 1, teams 2 ("core"), 3 ("ops"), tokens 4, 5
+func membershipPrefix() []op {
+	return []op{mOrg("acme"), mTeam(1, "core"), mTeam(1, "ops"), mTok("tA", "p1"), mTok("tB", "p1")}
+}
+func membershipAlphabet() []op {
+	return []op{mMem(4, 2), mMem(4, 3), mMem(5, 2), mMem(5, 3), opRmMem(4, 2), opRmMem(5, 2), opRmMem(4, 3),
+		opDelTeam(2), opDelTeam(3), opDelToken(4), opDelOrg(1)}
+}
+
+// enumerateOps runs prefix ++ w for every word w of exactly n letters.
+func enumerateOps(c *vh.Ctx, prefix, alpha []op, n int, cfg runCfg) int {
+	count := 0
+	seq := make([]int, n)
+	var rec func(d int)
+	rec = func(d int) {
+		if d == n {
+			ops := append([]op(nil), prefix...)
+			for _, li := range seq {
+				ops = append(ops, alpha[li])
+			}
+			runCase(c, ops, cfg)
+			count++
+			return
+		}
+		for i := range alpha {
+			seq[d] = i
+			rec(d + 1)
+		}
+	}
+	rec(0)
+	return count
+}
+
+// membershipKinds: random histories dominated by membership traffic over few teams and tokens
+var membershipKinds = map[string]int{
+	"mkorg": 4, "mkteam": 10, "mktoken": 8, "addmem": 30, "rmmem": 10, "delteam": 7, "delorg": 3, "deltoken": 4,
+	"updteam": 2, "mkrole": 3, "mkmperm": 2, "delrole": 1, "rotate": 1, "updtoken": 1,
 }
